@@ -27,6 +27,7 @@ import (
 	"context"
 	"fmt"
 	"os"
+	"sync/atomic"
 )
 
 func (v *loggerPlus) Println(ctx Context, a ...interface{}) {
@@ -66,12 +67,14 @@ type key string
 
 var cidKey key = "cid.logger.ossrs.org"
 
-var gCid int = 999
+// The last cid allocated, always use atomic to access it,
+// for contexts are created by goroutines concurrently.
+var gCid int64 = 999
 
 // Create context with value.
 func WithContext(ctx context.Context) context.Context {
-	gCid += 1
-	return context.WithValue(ctx, cidKey, gCid)
+	cid := int(atomic.AddInt64(&gCid, 1))
+	return context.WithValue(ctx, cidKey, cid)
 }
 
 // Create context with value from parent, copy the cid from source context.
